@@ -403,6 +403,7 @@ class Sim:
         conn = self.eps[dst]
         if self.terminated[dst]:
             return
+        arrs = []
         if data is None:
             E = self.A["tls"].Epoch
             for j, p in enumerate(d["pkts"]):
@@ -417,9 +418,17 @@ class Sim:
                         can = rg is not None and p["gen"] in (rg, rg + 1)
                     if dst == "c" or p["type"] == "handshake":      # receive_datagram drops these when the CID is not (any longer) one of its own
                         can = can and any(bytes(p["dcid"]) == h.cid for h in conn._host_cids)
-                    self.ev("arr", ep=dst, dg=d["id"], idx=j, space=p["space"], type=p["type"], pn=p["pn"],
-                            ackel=p["ackel"], haskeys=can, hc=bool(conn._handshake_complete), addr=self.addr_id(addr))
+                    a = self.ev("arr", ep=dst, dg=d["id"], idx=j, space=p["space"], type=p["type"], pn=p["pn"],
+                                ackel=p["ackel"], haskeys=can, maybe=can, hc=bool(conn._handshake_complete),
+                                addr=self.addr_id(addr))
+                    if not can:
+                        arrs.append((a, p, ep_))
         _, r = self._guard(dst, "receive_datagram", conn.receive_datagram, raw, addr, now=self.t())
+        for a, p, ep_ in arrs:
+            # keys that were missing before the call may have been installed by an earlier packet of the same
+            # datagram: such a packet may or may not have been processed
+            cr = conn._cryptos.get(ep_) if p["type"] != "initial" else conn._cryptos_initial.get(p["ver"])
+            a["maybe"] = bool(cr and cr.recv.is_valid())
         self.ev("rx", ep=dst, dg=d["id"], len=len(raw), addr=self.addr_id(addr), raised=r or "",
                 forged=data is not None)
         self._after(dst)
